@@ -238,6 +238,26 @@ def judge_pair(ctx, cssutils, name, value, rng, vclass, expect=None, context='st
             st2 = css.CSSStyleDeclaration()
             st2[name] = value
             verdicts['setitem'] = bool(st2.getProperties(all=True)[0].valid)
+            # a declaration that said something else and was changed through the interface of its value object (validated before and after)
+            single = [t for t in tokens_of(value) if t.strip()]
+            if len(single) == 1 and not value.lstrip().startswith(('"', "'")):
+                for first in ('10', 'red', 'zqx'):
+                    if first == value:
+                        continue
+                    sh = cssutils.parseString('zz{%s:%s}' % (name, first))
+                    pr = sh.cssRules[0].style.getProperties(all=True)
+                    if not pr or not len(pr[0].propertyValue):
+                        continue
+                    before = pr[0].valid
+                    try:
+                        pr[0].propertyValue[0].cssText = value
+                    except Exception:
+                        continue  # (the value object refuses texts of another kind: nothing changed)
+                    if pr[0].propertyValue.cssText.replace(' ', '') != css.PropertyValue(value).cssText.replace(' ', ''):
+                        continue
+                    verdicts['changed through Value.cssText (was %s, valid=%s)' % (first, before)] = bool(pr[0].valid)
+                    verdicts['... and its rule'] = bool(sh.cssRules[0].valid) if hasattr(sh.cssRules[0], 'valid') else bool(pr[0].valid)
+                    break
             # a Property object that lived in an @font-face block, handed to an ordinary block
             ff = css.CSSFontFaceRule()
             ff.style.setProperty(name, value)
